@@ -343,4 +343,6 @@ example : (srcLowerStack ⟨⟨-3, -2⟩, ⟨7, 5⟩⟩
     (.fillContiguous ⟨⟨-2, -1⟩, ⟨4, 3⟩⟩ [1, 2, 3, 4, 5, 6, 7])) =
     .fillContiguous ⟨⟨-1, -1⟩, ⟨3, 2⟩⟩ [5, 6, 7] := by decide
 
+-- [V] trusted by the source tie of the adapters: the prelude EG/Model/AdaptSrcPrelude.lean (an `IntoIterator` argument is the finite list of its items, `map` / `filter` / `zip` are the list operations, `repeat` is cut by explicit fuel, an iterator adapter whose `next` is `self.iter.next().map(F)` maps `F`, a generic parent target is its `bounding_box()` and a call on it is the `Call` value, `Rectangle`'s methods are the hand model's [their own source tie: C16's Generated*.lean, `intersection` / `contains` under `FitsI32`], `iterator::contiguous::Cropped::new` is the hand model `croppedList` of EG/Model/CroppedIter.lean [its `new` / `next` are NOT regenerated: correspondence stream + `cropped_iter_*` theorems only]); the parser and the type-directed method resolution of tools/tr_adapt.py / tr_rect.py (demonstrated by tools/tests/adapt_translator_demo.py: 12 mutations each break a theorem, 6 harmless rewrites break none); that trait-method dispatch picks the impls the translator picks (the adapter's own `impl DrawTarget`, else the trait default; `Cropped`'s box through the blanket `impl<T: OriginDimensions> Dimensions for T`)
+
 end EG.C03.GenAdapters
